@@ -162,6 +162,78 @@ static void runSequence(vio::Cursor & c, vio::Out & o) {
     }
 }
 
+// A model object is built once, long-lived solvers are built once (PolicyEvaluation keeps a reference to
+// its model), then the model is MUTATED through its setters between calls: every call must answer for
+// the tables the model holds at that call.
+static void runMutation(vio::Cursor & c, vio::Out & o, size_t S, size_t A, double gamma0) {
+    const size_t k = c.nextSize();
+    const unsigned h = (unsigned) c.nextSize();
+    const double tol = c.nextDouble();
+    const unsigned hpi = (unsigned) c.nextSize();
+    (void) c.nextSize();    // bits per sweep (driver only)
+    std::vector<double> v0 = c.nextDoubles();
+    ValueFunction start{Values(), Actions(0)};
+    Values startValues;
+    if (!v0.empty()) {
+        start.values = Eigen::Map<const Vector>(v0.data(), v0.size());
+        start.actions = Actions(v0.size(), 0);
+        startValues = start.values;
+    }
+    T3 t = readT3(c, S, A), r = readT3(c, S, A);
+    Model dense(S, A, t, r, gamma0);
+    SparseModel sparse(S, A, t, r, gamma0);
+    PolicyEvaluation<Model> peD(dense, h, tol, startValues);
+    PolicyEvaluation<SparseModel> peS(sparse, h, tol, startValues);
+    ValueIteration vi(h, tol, start);
+    PolicyIteration pi(hpi, 0.0);
+    LinearProgramming lp;
+    auto callAll = [&]() {
+        Matrix2D pol(S, A);
+        for (size_t s = 0; s < S; ++s) for (size_t a = 0; a < A; ++a) pol(s, a) = c.nextDouble();
+        Policy p(pol);
+        { auto [var, v, q] = peD(p); o << var; outV(o, v); outQ(o, q); }
+        { auto [var, v, q] = peS(p); o << var; outV(o, v); outQ(o, q); }
+        { auto [var, vf, q] = vi(dense);  o << var; outV(o, vf.values); o.list(vf.actions); outQ(o, q); }
+        { auto [var, vf, q] = vi(sparse); o << var; outV(o, vf.values); o.list(vf.actions); outQ(o, q); }
+        outQ(o, pi(dense)); outQ(o, pi(sparse));
+        outLP(o, lp(dense)); outLP(o, lp(sparse));
+    };
+    callAll();
+    for (size_t i = 0; i < k; ++i) {
+        const std::string ops = c.next();
+        for (char ch : ops) {
+            if (ch == 'T') { t = readT3(c, S, A); dense.setTransitionFunction(t); sparse.setTransitionFunction(t); }
+            else if (ch == 'R') { r = readT3(c, S, A); dense.setRewardFunction(r); sparse.setRewardFunction(r); }
+            else if (ch == 'D') { const double d = c.nextDouble(); dense.setDiscount(d); sparse.setDiscount(d); }
+            else throw std::logic_error("mut: unknown op");
+        }
+        callAll();
+    }
+}
+
+// Deterministic corridor on which Howard policy iteration needs about n improvement rounds:
+// states 0..n-2 either bail out (action 0) into the absorbing zero-reward sink n for a one-off payment
+// c_i, or walk (action 1, reward 0) to i+1; state n-1 is an absorbing goal paying 1 per step.
+static void runChain(vio::Cursor & c, vio::Out & o, size_t S, size_t A, double gamma) {
+    const double tol = c.nextDouble();
+    const unsigned h = (unsigned) c.nextSize();
+    std::vector<double> pay = c.nextDoubles();
+    const size_t n = S - 1;
+    if (A != 2 || pay.size() + 1 != n) throw std::logic_error("chain: bad shape");
+    Model::TransitionMatrix T(A, Matrix2D::Zero(S, S));
+    Matrix2D R = Matrix2D::Zero(S, A);
+    for (size_t i = 0; i + 1 < n; ++i) { T[0](i, n) = 1.0; R(i, 0) = pay[i]; T[1](i, i + 1) = 1.0; }
+    for (size_t a = 0; a < A; ++a) { T[a](n - 1, n - 1) = 1.0; R(n - 1, a) = 1.0; T[a](n, n) = 1.0; }
+    Model dense(S, A, gamma);
+    dense.setTransitionFunction(T);
+    dense.setRewardFunction(R);
+    SparseModel sparse(dense);
+    { ValueIteration vi(h, tol); auto [var, vf, q] = vi(dense); o << var; outV(o, vf.values); o.list(vf.actions); outQ(o, q); }
+    { PolicyIteration pi(h, tol); outQ(o, pi(dense)); }
+    { PolicyIteration pi(h, tol); outQ(o, pi(sparse)); }
+    { LinearProgramming lp; outLP(o, lp(dense)); }
+}
+
 int main(int argc, char ** argv) {
     return vio::runCases(argc, argv, [](vio::Cursor & c, vio::Out & o) {
         const std::string kind = c.next();
@@ -170,6 +242,8 @@ int main(int argc, char ** argv) {
         if (kind == "seq") { runSequence(c, o); return; }
         const size_t S = c.nextSize(), A = c.nextSize();
         const double gamma = c.nextDouble();
+        if (kind == "mut") { runMutation(c, o, S, A, gamma); return; }
+        if (kind == "chain") { runChain(c, o, S, A, gamma); return; }
         if (kind == "vi" || kind == "pe") {
             // <h> <tol> <T[s][a][s1]> <R[s][a][s1]> <v0 list> [pol S*A]
             const unsigned h = (unsigned) c.nextSize();
